@@ -481,11 +481,45 @@ func c01Grouping(c *core.Ctx) {
 // reader stops; it must not go on to use the failed reader.
 func checkSamReaderFailure(c *core.Ctx) {
 	pos := funcPos(c, "pkg/sam", "groupSamRecords")
-	_, hdr, done, nerr, err := runGroupSam(c, nil, true, -1)
-	if err != nil {
-		c.Ob("T/sam/unreadable-header", false, pos, "after failing to open the SAM stream (empty or header-less input) the reader does not stop: %v", err)
-	} else {
-		c.Ob("T/sam/unreadable-header", nerr == 1 && done == 0, pos, "opening the SAM stream fails: %d error(s) reported, header sent %d, completion signalled %d; want exactly one error and no completion", nerr, hdr, done)
+	for _, eof := range []bool{false, true} {
+		samOpenErrEOF = eof
+		key := "T/sam/unreadable-header"
+		if eof {
+			key = "T/sam/empty-stream"
+		}
+		_, hdr, done, nerr, err := runGroupSam(c, nil, true, -1)
+		if err != nil {
+			c.Ob(key, false, pos, "after failing to open the SAM stream (empty or header-less input) the reader does not stop: %v", err)
+		} else {
+			c.Ob(key, nerr == 1 && done == 0, pos, "opening the SAM stream fails: %d error(s) reported, header sent %d, completion signalled %d; want exactly one error and no completion", nerr, hdr, done)
+		}
+	}
+	samOpenErrEOF = false
+	// the reader of `sam indels` (its own function): same two failures
+	if fn := c.LookupFunc("pkg/sam", "getSamRecords"); fn != nil {
+		for _, tc := range []struct {
+			key     string
+			recs    []samRec
+			failNew bool
+			failAt  int
+			eof     bool
+		}{{"T/sam-indels/unreadable-header", nil, true, -1, false}, {"T/sam-indels/empty-stream", nil, true, -1, true},
+			{"T/sam-indels/malformed-record", []samRec{{Name: "a", Cigar: "1M", Seq: "A"}, {Name: "b", Cigar: "1M", Seq: "C"}}, false, 1, false}} {
+			samOpenErrEOF = tc.eof
+			ev := newEval(c)
+			installSamReader(c, ev, tc.recs, tc.failNew, tc.failAt)
+			cR, cD, cE := &eval.ChanVal{Name: "records"}, &eval.ChanVal{Name: "done"}, &eval.ChanVal{Name: "err"}
+			if _, err := ev.CallFunc(fn, eval.Opaque{Why: "sam input"}, cR, cD, cE); err != nil {
+				c.Ob(tc.key, false, fn.Pos(), "after the SAM stream fails the reader of sam indels does not stop: %v", err)
+				continue
+			}
+			done := len(cD.Sent)
+			if done == 0 && cR.Closed {
+				done = 1
+			}
+			c.Ob(tc.key, len(cE.Sent) >= 1 && done == 0, fn.Pos(), "the SAM stream cannot be opened or read: %d error(s) reported, completion signalled %d, %d record(s) passed on; want an error and no completion", len(cE.Sent), done, len(cR.Sent))
+		}
+		samOpenErrEOF = false
 	}
 	gs, _, done, nerr, err := runGroupSam(c, []samRec{{Name: "a", Cigar: "1M", Seq: "A"}, {Name: "b", Cigar: "1M", Seq: "C"}}, false, 1)
 	if err != nil {
